@@ -132,7 +132,7 @@ impl Acc {
                     x.insert(v);
                 }
                 std::collections::btree_map::Entry::Occupied(mut x) => {
-                    if v.1.len() < x.get().1.len() {
+                    if v.1.len() < x.get().1.len() || (v.1.len() == x.get().1.len() && v.1 < x.get().1) {
                         x.insert(v);
                     }
                 }
@@ -156,7 +156,7 @@ impl Acc {
             let sig = v.sig();
             let better = match self.violations.get(&sig) {
                 None => true,
-                Some(old) => path.len() < old.1.len(),
+                Some(old) => path.len() < old.1.len() || (path.len() == old.1.len() && path < old.1.as_slice()),
             };
             if better {
                 self.violations
